@@ -2585,6 +2585,15 @@ int sexp_write_utf8_char (sexp ctx, int c, sexp out) {
   int len = sexp_utf8_char_byte_count(c), i;
   sexp_utf8_encode_char(buf, len, c);
   buf[len] = 0;
+  /* make room for the whole character first, so that a flush which */
+  /* fails (would block) leaves nothing half-written for the retry */
+  if (!sexp_port_stream(out) && sexp_port_buf(out)) {
+    while (sexp_port_offset(out) + len >= sexp_port_size(out)) {
+      i = sexp_port_offset(out);
+      if (sexp_buffered_flush(ctx, out, 0) || sexp_port_offset(out) >= (sexp_uint_t)i)
+        return EOF;
+    }
+  }
   i = sexp_write_char(ctx, buf[0], out);
   if (i == EOF) return EOF;
   sexp_write_string(ctx, (char*)buf+1, out);
